@@ -53,7 +53,7 @@ fn stress(seed: u64, millis: u64) {
     std::thread::spawn(|| { let mut last = PROGRESS.load(Ordering::SeqCst); let mut since = std::time::Instant::now();
         loop { std::thread::sleep(Duration::from_millis(250)); let p = PROGRESS.load(Ordering::SeqCst);
             if p != last { last = p; since = std::time::Instant::now(); }
-            else if since.elapsed() > Duration::from_secs(10) { println!("stress\trounds=0\tcalls={}\tmismatches=1\tdeadlock: text={} no call returned for 10 s (threads never came back)", p, CURRENT.lock().unwrap()); use std::io::Write; let _ = std::io::stdout().flush(); std::process::exit(3); } } });
+            else if since.elapsed() > Duration::from_secs(20) { println!("stress\trounds=0\tcalls={}\tmismatches=1\tdeadlock: text={} no call returned for 20 s (threads never came back)", p, CURRENT.lock().unwrap()); use std::io::Write; let _ = std::io::stdout().flush(); std::process::exit(3); } } });
     while (start.elapsed().as_millis() as u64) < millis && bad.len() < 5 {
         let text = texts[(next() % texts.len() as u64) as usize].clone(); let want = Arc::new(spec_lines(&text));
         *CURRENT.lock().unwrap() = hex(text.as_bytes()); PROGRESS.fetch_add(1, Ordering::SeqCst);
@@ -147,7 +147,7 @@ fn main() {
         if status != "ok" { FREE.store(true, Ordering::SeqCst); { let mut s = m.lock().unwrap(); s.turn = None; cv.notify_all(); } }
         // every thread must come back: once released they run freely; a thread that has not finished after DEADLOCK_MS is stuck for good
         // (a lost wake-up, a lock never released) -- "no call deadlocks" is part of the property, and a hung replay would say nothing
-        { let limit = Duration::from_millis(std::env::var("DEADLOCK_MS").ok().and_then(|x| x.parse().ok()).unwrap_or(4000)); let t0 = std::time::Instant::now();
+        { let limit = Duration::from_millis(std::env::var("DEADLOCK_MS").ok().and_then(|x| x.parse().ok()).unwrap_or(10000)); let t0 = std::time::Instant::now();
           let mut s = m.lock().unwrap();
           while s.at.iter().any(|a| *a != St::Finished) && t0.elapsed() < limit { let (g, _) = cv.wait_timeout(s, Duration::from_millis(50)).unwrap(); s = g; if status == "ok" && s.at.iter().any(|a| matches!(a, St::Parked(_))) { s.turn = None; FREE.store(true, Ordering::SeqCst); cv.notify_all(); } }
           let stuck: Vec<usize> = s.at.iter().enumerate().filter(|(_, a)| **a != St::Finished).map(|(i, _)| i).collect();
